@@ -11,6 +11,7 @@ import (
 	"strings"
 
 	"github.com/JunNishimura/Goit/internal/binary"
+	"github.com/JunNishimura/Goit/internal/fsutil"
 	"github.com/JunNishimura/Goit/internal/sha"
 )
 
@@ -155,12 +156,7 @@ func (o *Object) Write(rootGoitPath string) error {
 			return fmt.Errorf("%w: %s", ErrIOHandling, dirPath)
 		}
 	}
-	f, err := os.Create(filePath)
-	if err != nil {
-		return fmt.Errorf("%w: %s", ErrIOHandling, filePath)
-	}
-	defer f.Close()
-	if _, err := f.Write(buf.Bytes()); err != nil {
+	if err := fsutil.WriteFileAtomic(rootGoitPath, filePath, buf.Bytes()); err != nil {
 		return fmt.Errorf("%w: %s", ErrIOHandling, filePath)
 	}
 	return nil
